@@ -609,7 +609,8 @@ class ScriptedServer:
                 the package's own server); a longer body is answered 200
                 and not processed, as the real servers do
       ws:       'ok' | 'refuse' | 'status403' (handshake answered 403)
-      probe:    'ok' | 'wrong' | 'silent' | 'close' | 'upgrade-write-fails'
+      probe:    'ok' | 'wrong' | 'garbage' | 'empty' | 'silent' | 'close' |
+                'upgrade-write-fails'
       ws_open:  'ok' | 'garbage' | 'nonopen' | 'close'  (websocket-only open)
     The driver pushes packets with push()/ws_push() and may drop / close.
     """
@@ -814,6 +815,11 @@ class ScriptedT(ScriptedServer):
                     conn.push('3probe')
                 elif p == 'wrong':
                     conn.push('3nope')
+                elif p == 'garbage':
+                    # something that is not an Engine.IO packet at all
+                    conn.push('x')
+                elif p == 'empty':
+                    conn.push('')
                 elif p == 'close':
                     conn.server_close()
                 elif p == 'upgrade-write-fails':
@@ -836,9 +842,22 @@ class AConn:
         self.client_closed = False
         self.server_closed = False
         self.upgraded = False
+        self._send_fails = False
+        self.on_send_fails = None
+
+    @property
+    def send_fails(self):
+        return self._send_fails
+
+    @send_fails.setter
+    def send_fails(self, v):
+        # from now on the client's writes on this socket fail
+        self._send_fails = v
+        if v and self.on_send_fails is not None:
+            self.on_send_fails()
 
     async def asend(self, frame):
-        if self.server_closed or getattr(self, 'send_fails', False):
+        if self.server_closed or self.send_fails:
             raise WsClosed()
         self.srv.on_frame(self, frame)
 
@@ -981,7 +1000,75 @@ class WorldA:
         return left
 
 
+class ScriptPeer:
+    """Network between a REAL aiohttp.ClientSession and the scripted server:
+    every connection is an in-memory pipe to an HTTP/1.1 + RFC 6455 front-end
+    (vf.httpfront) of the scripted server."""
+    lat = None
+
+    def __init__(self, loop, srv):
+        self.loop = loop
+        self.srv = srv
+        self.connections = 0
+
+    def now(self):
+        return self.loop._vnow
+
+    def make_session(self):
+        import aiohttp
+        from aiohttp.client_proto import ResponseHandler
+        from vf.httpfront import HttpFront
+        Pipe = _mem_transport_classes()
+        peer = self
+
+        class MemConnector(aiohttp.BaseConnector):
+            async def _create_connection(self, req, traces, timeout):
+                if peer.srv.dropped:
+                    raise aiohttp.ClientConnectorError(
+                        req.connection_key, OSError(111, 'Connection refused'))
+                loop = peer.loop
+                peer.connections += 1
+                cproto = ResponseHandler(loop)
+                sproto = HttpFront(peer.srv, loop,
+                                   'https' if req.is_ssl() else 'http')
+                a, b = Pipe(loop, peer), Pipe(loop, peer)
+                a.peer, b.peer = b, a
+                a.protocol, b.protocol = cproto, sproto
+                cproto.connection_made(a)
+                sproto.connection_made(b)
+                return cproto
+        return aiohttp.ClientSession(connector=MemConnector())
+
+
+class WorldR(WorldA):
+    """Like WorldA, but the real AsyncClient talks through a REAL
+    aiohttp.ClientSession (in-memory pipes to the scripted server's HTTP
+    front-end) instead of the fake session."""
+    kind = 'R'
+
+    def __init__(self, script=None, **client_kwargs):
+        from vf import vloop
+        for k in ('policy', 'seed', 'yield_prob', 'backend'):
+            client_kwargs.pop(k, None)
+        self.loop = vloop.VLoop()
+        self.srv = ScriptedA(self.loop, script)
+        self.peer = ScriptPeer(self.loop, self.srv)
+        self.cli = CliA(self.loop, self.peer,
+                        session_factory=self.peer.make_session,
+                        **client_kwargs)
+
+    def teardown(self):
+        try:
+            self.loop.create_task(self.cli.session.close())
+            self.loop.quiesce()
+        except BaseException:
+            pass
+        return super().teardown()
+
+
 def make_world(kind, **kw):
+    if kind == 'R':
+        return WorldR(**kw)
     return WorldT(**kw) if kind == 'T' else WorldA(**kw)
 
 
